@@ -24,6 +24,7 @@ type Chooser struct {
 	// Diverged is set when a strict replay saw a different label or bound.
 	Diverged string
 	limit    int
+	prefix   []int
 }
 
 // ErrBudget is panicked when a run draws more than its budget (runaway run).
@@ -31,6 +32,14 @@ type ErrBudget struct{}
 
 func NewSeeded(seed uint64) *Chooser {
 	return &Chooser{rng: rand.New(rand.NewPCG(seed, 0x9e3779b97f4a7c15)), limit: 1 << 20}
+}
+
+// NewSeededPrefix is NewSeeded whose first draws are forced (fault-point enumeration: the same
+// seeded history with the enumerated fault point as its first decision).
+func NewSeededPrefix(seed uint64, prefix []int) *Chooser {
+	c := NewSeeded(seed)
+	c.prefix = prefix
+	return c
 }
 
 func NewReplay(ks []int) *Chooser { return &Chooser{replay: ks, limit: 1 << 20} }
@@ -54,7 +63,10 @@ func (c *Chooser) Intn(n int, label string) int {
 	}
 	var k int
 	if c.rng != nil {
-		k = c.rng.IntN(n)
+		k = c.rng.IntN(n) // always drawn, so that the stream after the prefix does not depend on it
+		if len(c.Trace) < len(c.prefix) {
+			k = c.prefix[len(c.Trace)] % n
+		}
 	} else {
 		if c.pos < len(c.replay) {
 			k = c.replay[c.pos]
